@@ -165,6 +165,7 @@ func (w *WaitGroup) Done() { w.Add(-1) }
 func (w *WaitGroup) Wait() {
 	if vsched.Active() {
 		vsched.Point("WaitGroup.Wait")
+		vsched.Settle(w.zero)
 		vsched.BlockUntil("WaitGroup.Wait", w.zero)
 	}
 	w.wg.Wait()
